@@ -59,6 +59,8 @@ struct PendingReply { int caller, callee; uint32_t serial; long t_added_ms; };
 class BusModel {
  public:
   std::vector<PendingReply> pending;                  // [M] reply slots: (caller, callee, serial)
+  std::vector<Exp> emitted;                           // every frame the bus itself originated since the caller last cleared this (each broadcast once): what an unfiltered monitor must see
+  void emit_to(int c, const Exp& e, Out& out) { out[c].push_back(e); emitted.push_back(e); }
   int max_replies = 1 << 30;                          // max_replies_per_connection
   long reply_timeout_ms = -1;                         // -1: never
   long now_ms = 0;                                    // virtual time
@@ -78,6 +80,9 @@ class BusModel {
   uint32_t request_name(int c, const std::string& name, uint32_t flags, uint32_t serial, Out& out, std::string* err);
   uint32_t release_name(int c, const std::string& name, uint32_t serial, Out& out, std::string* err);
   void disconnect(int c, Out& out);
+  // BecomeMonitor succeeded: to everybody else exactly a disconnect; the bus additionally tells the connection itself
+  // that it lost every name it was primary owner of, its unique name included [D bus_connection_be_monitor].
+  void become_monitor(int c, Out& out);
   int names_held(int c) const;
   // Match rules.
   void add_match(int c, const MatchRule& r) { conns[c].rules.push_back(r); }
